@@ -1,5 +1,6 @@
 import PyPhysim.Model.Proto
 import PyPhysim.Model.C07
+import PyPhysim.Model.C07Power
 open PyPhysim.Proto PyPhysim.C07
 open PyPhysim.C05 (Outcome Keep Stored Saved VarState)
 
@@ -66,8 +67,9 @@ def showStatus : Option PyPhysim.C07.Err → String
   | some e => toString e
 
 def opKind {C} : SlotOp C → String
-  | .trunc => "trunc" | .write _ => "write" | .tmpOpen => "tmpOpen" | .tmpWrite => "tmpWrite"
-  | .rename _ => "rename"
+  | .trunc => "trunc" | .write _ => "write" | .tmpOpen => "tmpOpen" | .tmpWrite _ => "tmpWrite"
+  | .tmpFlush => "tmpFlush" | .tmpFsync => "tmpFsync" | .tmpClose => "tmpClose"
+  | .rename _ => "rename" | .syncMain => "syncMain"
 
 def evKind : Ev Res Nat → String
   | .call _ => "call"
@@ -102,7 +104,13 @@ def handleResume (toks : List String) : Option String := do
     let d1 := crashDisk Disk.empty e1.trace m
     let e2 := simC cfg2 d1 ⟨0, clk2⟩ outs2
     let d2 := d1.applyAll e2.trace
-    s!"m={m} calls1={(callLog pre).length} crash={showDisk nshow d1} st={showStatus e2.status} log={showList toString (callLog e2.trace)} reps={showList toString e2.reps} res={showList showStored e2.results "_"} disk={showDisk nshow d2}"
+    let run2 := s!"st={showStatus e2.status} log={showList toString (callLog e2.trace)} reps={showList toString e2.reps} res={showList showStored e2.results "_"} disk={showDisk nshow d2}"
+    -- the same crash point as a POWER LOSS: every file cut to its durable part, then the restart
+    let p1 := (powerLossDisk PDisk.empty e1.trace m).view
+    let f2 := simC cfg2 p1 ⟨0, clk2⟩ outs2
+    let q2 := p1.applyAll f2.trace
+    let prun2 := s!"st={showStatus f2.status} log={showList toString (callLog f2.trace)} reps={showList toString f2.reps} res={showList showStored f2.results "_"} disk={showDisk nshow q2}"
+    s!"m={m} calls1={(callLog pre).length} crash={showDisk nshow d1} {run2} pcrash={showDisk nshow p1} prun2={if prun2 = run2 then "same" else prun2.replace " " "~"}"
   some (s!"N={total} st1={showStatus e1.status} reps1={showList toString e1.reps} kinds={showList evKind e1.trace} ; " ++ " ; ".intercalate (pts.map one))
 
 def handle : List String → String
